@@ -11,6 +11,7 @@ from tealer.teal.instructions.instructions import (
 )
 
 from tealer.exceptions import TealerException
+from tealer.utils.teal_enums import NAMED_INT_CONSTANTS
 
 if TYPE_CHECKING:
     from tealer.teal.basic_blocks import BasicBlock
@@ -33,11 +34,9 @@ def is_int_push_ins(ins: Instruction) -> Tuple[bool, Optional[Union[int, str]]]:
         value is None when pushes_int is True but the Tealer cannot compute the pushed value.
         value will be not None if Tealer can compute it.
 
-        value will be a string if it is a named constant. The named constants are converted to
-        integers by the assembler. Tealer directly returns the string instead of finding the compiled
-        integer.
-
-        value will be an int if the value is an integer in the Teal code.
+        value is the integer the assembler compiles the instruction to: the number written in the Teal
+        code, or the value of the named constant (`int pay` is `int 1`, `int NoOp` is `int 0`, ...).
+        A name the assembler does not know is returned as it is (a string).
 
     Raises:
         TealerException: Raises error if ins.bb or ins.bb.teal are not initialized properly.
@@ -45,6 +44,8 @@ def is_int_push_ins(ins: Instruction) -> Tuple[bool, Optional[Union[int, str]]]:
     if isinstance(ins, Int) or isinstance(  # pylint: disable=consider-merging-isinstance
         ins, PushInt
     ):
+        if isinstance(ins.value, str):
+            return True, NAMED_INT_CONSTANTS.get(ins.value, ins.value)
         return True, ins.value
     if isinstance(ins, IntcInstruction):
         if not ins.bb or not ins.bb.teal:
